@@ -223,6 +223,8 @@ class LLOneParser:
             current = stack.pop()
             if current == "$" and word[-1] == "$":
                 return parse_tree
+            if current == "$":
+                raise NotParsableException
             if current.value == word[-1]:
                 word.pop()
             else:
